@@ -35,6 +35,8 @@ ENTITY_TABLES = [
     "<!ENTITY e '<b/></a>'><!ENTITY f '<b>'>",
     "<!ENTITY e '</a><a>'><!ENTITY f '<b a=\"1\"'>",
     "<!ENTITY e 'u<!--k-->v'><!ENTITY f '<a'>",
+    "<!ENTITY f 'x'><!ENTITY e '&f;<b/></a>'>",
+    "<!ENTITY f '<b x=\"&#9;\"/>'><!ENTITY e '&f;</b>'>",
 ]
 
 
@@ -188,6 +190,32 @@ def g_mutations(seed, n, flags="", dtd=True, max_len=600):
     return out
 
 
+def g_nonchar(flags=""):
+    out = []
+    bad = ["\x01", "\x0b", "\x1f", "\ufffe", "\uffff"]
+    pre = ["", "a", "\u00e9", "\u4e2d", "\U0001f600", "\u00e9\u4e2d\U0001f600", "\u0440", "\u2013"]
+    ctx = [("<r a=\"%s\"/>", "attribute value"), ("<r a='%s'/>", "attribute value"), ("<r>%s</r>", "text"), ("<r><!--%s--></r>", "comment"),
+           ("<r><?p %s?></r>", "PI"), ("<r><![CDATA[%s]]></r>", "CDATA"), ("<!DOCTYPE r [<!ENTITY e '%s'>]><r/>", "entity value"),
+           ("<!DOCTYPE r [<!ENTITY e \"%s\">]><r>&e;</r>", "entity value"), ("<%s/>", "name"), ("<r %s='v'/>", "attribute name")]
+    for c, why in ctx:
+        for p in pre:
+            for b2 in bad:
+                for suffix in ("", "z"):
+                    out.append(Case(c % (p + b2 + suffix), flags, True, meta={"gen": "nonchar", "illformed": "non-Char in " + why}))
+    return out
+
+
+# documents where one URI is bound to several prefixes and equal attributes are reached through each
+def g_same_uri(flags="ncl"):
+    docs = [
+        "<e xmlns:a='urn:same' xmlns:b='urn:same'><x a:k='v'/><y b:k='v'/><z a:k='w' b:j='v'/></e>",
+        "<e xmlns='urn:same' xmlns:p='urn:same'><c xmlns='urn:same' p:k='v' k='v'/><p:d k='v'/></e>",
+        "<e xmlns:p='urn:same'><c xmlns='urn:same'><d xmlns:q='urn:same' q:k='v' p:j='v'/></c><p:c p:k='v'/></e>",
+        "<e xmlns:a='u' xmlns:b='u' xmlns:c='v'><x a:k='1' c:k='1'/><y b:k='1' k='1'/></e>",
+    ]
+    return [Case(d, flags, True, meta={"gen": "same-uri-two-prefixes"}) for d in docs]
+
+
 # ---------------------------------------------------------------------------------------------
 # G-ent: entity graphs
 # ---------------------------------------------------------------------------------------------
@@ -203,6 +231,9 @@ def g_ent_cycles(maxlen=32, flags=""):
         out.append(Case(ent_doc(decls, "<r a='&c0;'/>"), flags, True, meta={"gen": "cycle-attr", "len": l, "expect": "EntityReferenceLoop"}))
         decls2 = decls + [("w", "<i a=\"&c0;\"/>")]
         out.append(Case(ent_doc(decls2, "<r>&w;</r>"), flags, True, meta={"gen": "cycle-attr-in-entity", "len": l, "expect": "EntityReferenceLoop"}))
+        # the cycle passes through elements whose attributes need normalisation (TAB reference / entity)
+        decls3 = [("k%d" % i, "<b x=\"&#9;\" y=\"&v;\"/>&k%d;" % ((i + 1) % l)) for i in range(l)] + [("v", "w")]
+        out.append(Case(ent_doc(decls3, "<r>&k0;</r>"), flags, True, meta={"gen": "cycle-through-attr-elements", "len": l, "expect": "EntityReferenceLoop"}))
     return out
 
 
@@ -220,6 +251,21 @@ def g_ent_fanout(fs, ds, flags=""):
                 body = "<r>&l%d;</r>" % d if use == "text" else "<r a='&l%d;'/>" % d
                 out.append(Case(ent_doc(decls, body), flags, True,
                                 meta={"gen": "fanout-" + use, "f": f, "d": d, "expect": "ok" if ok else "EntityReferenceLoop", "expect_len": exp_len if ok else None}))
+    return out
+
+
+def g_ent_fanout_attr_leaf(fs, ds, flags=""):
+    """billion laughs whose leaf is an element with an attribute that references an entity"""
+    out = []
+    for f in fs:
+        for d in ds:
+            decls = [("v", "x" * 20), ("l0", "<e a=\"&v;\"/>")] + [("l%d" % i, ("&l%d;" % (i - 1)) * f) for i in range(1, d + 1)]
+            # below the top-level reference: f + .. + f^d references to l*, plus one &v; per leaf (f^d)
+            nested = sum(f ** k for k in range(1, d + 1)) + f ** d
+            ok = (d + 2 <= 10) and (nested <= 255)
+            out.append(Case(ent_doc(decls, "<r>&l%d;</r>" % d), flags, True,
+                            meta={"gen": "fanout-attr-leaf", "f": f, "d": d, "expect": "ok" if ok else "EntityReferenceLoop",
+                                  "expect_len": 20 * f ** d if ok else None}))
     return out
 
 
